@@ -295,7 +295,7 @@ pub fn parts() -> Vec<Box<dyn PartDyn>> {
         Box::new(Part::<Case> {
             name: "negotiate",
             rule: "(client channel_max, frame_max, heartbeat) x (server ...): the boundary grid {0,1,2,255,65534,65535}^2 x {0,1,4095,4096,4097,131072,2^32-2,2^32-1}^2 x {0,1,2,60,65535}^2 enumerated completely (57 600 points) plus uniform/biased random points, through the tune_ok hook; oracle: independent spec (0 = unlimited, both unlimited = field maximum, else min; heartbeat = min; frame_max < 4096 => FrameMaxTooSmall{4096, requested}); non-trivial = the two sides differ and a value is 0 or the result sits on a boundary; distinct by case hash",
-            cases: |t| t.pick(20_000, 2_000_000),
+            cases: |t| t.pick(100_000, 3_000_000),
             threads: 16,
             strategy: strat_probe,
             exec: exec_probe,
@@ -306,7 +306,7 @@ pub fn parts() -> Vec<Box<dyn PartDyn>> {
         Box::new(Part::<Case> {
             name: "e2e",
             rule: "sampled option/Tune pairs run end-to-end on the mock transport: TuneOk on the wire equals the spec (none, and no Open, when FrameMaxTooSmall), open_channel(Some(channel_max)) works and Some(channel_max+1) fails with UnavailableChannelId, a publish of 3*frame_max+5 bytes arrives complete in frames <= frame_max; non-trivial as above",
-            cases: |t| t.pick(300, 8000),
+            cases: |t| t.pick(1000, 20_000),
             threads: 16,
             strategy: strat_e2e,
             exec: exec_e2e,
